@@ -7,7 +7,7 @@ import numpy as np
 import common
 
 
-def coq_eval_batches(ctx, name, header, items, render, per_file=100, jobs=4, timeout=600):
+def coq_eval_batches(ctx, name, header, items, render, per_file=50, jobs=4, timeout=600):
     """as common.coq_eval_batches, with -noglob (writing the .glob of a big literal costs more than checking it)"""
     import os
     from concurrent.futures import ThreadPoolExecutor
